@@ -9,7 +9,7 @@ from ..model import body_stmts, canon, dotted, kwarg, norm, walk_no_nested
 from . import ilp, nbk
 from .c01 import rule_nullable_index
 from .c04 import array_layout
-from .common import assigned_value, backing_field, check_unitary_record, conditions_at, count_if, else_part, enclosing, expand_locals, prog, resolve_local, stores_to
+from .common import assigned_value, backing_field, check_alignment_record, check_unitary_record, conditions_at, count_if, else_part, enclosing, expand_locals, prog, resolve_local, stores_to
 
 AVG = "avg_num_annotations_per_annotator"
 
@@ -85,6 +85,7 @@ def rule_alignment_level(ctx: Ctx):
               "mean units per annotator: the continuum's when attached, else (number of real units) / (number of slots)",
               bad_detail="Alignment.avg_num_annotations_per_annotator deviates from continuum.avg... / sum(nb_units)/num_annotators", key="avg")
     check_unitary_record(ctx, "R-SUP")
+    check_alignment_record(ctx, "R-SUP")
     for qn, accepted in (("Continuum." + AVG, {"self.num_units / self.num_annotators"}),
                          ("Continuum.num_units", {"sum((len(units) for units in self._annotations.values()))"}),
                          ("Continuum.num_annotators", {"len(self._annotations)"}),
